@@ -18,7 +18,14 @@ compare exactly with the losslessly exported state of the same context:
  correspondence (model = code; reported as correspondence:... when the predicate still holds)
   * compact/bare/verbose: the token is "0.e<l>" resp. round_sig d of the stored value with (l | d) given by
     outfloat_plan for a logarithm within LGTOL of the exact one;
-  * per line the kinds of fields equal line_fields; the printed lines equal printed_lines."""
+  * per line the kinds of fields equal line_fields; the printed lines equal printed_lines;
+  * every radius field, every gnuplot component and every "0.e<l>" equals, character for character, the text the
+    extracted DPE model renders (rdpe_out_str(_u) o get_dl, gnuplot_component, zero_exp_code; libm = this machine's).
+ DPE printing path on its own (harness/c17_rad.c, ~1500 generated DPEs / mpf values per run): the real rdpe_get_dl,
+ rdpe_out_str, rdpe_out_str_u, mpf_get_rdpe against get_dl / rdpe_out_str(_u) / mpf_get_rdpe / gnuplot_component of
+ coq/OutFmt/DpeModel.v: (d, l) bit for bit, both texts, the libm values of harness and driver equal and within the
+ hypotheses of C17_printed_radius_ge (50-digit reference), the property's radius / one-unit predicates in exact
+ rationals and the PROVED lower bound on each case."""
 import os, re, sys, json, math, collections
 sys.set_int_max_str_digits(0)
 from fractions import Fraction as Fr
@@ -225,14 +232,259 @@ def state_text(st):
     return "\n".join(lines) + "\n"
 
 
+# ----------------------------------------------------------------------------- the DPE printing path (harness/c17_rad.c)
+import struct, decimal
+EXACT_ESP = 200000         # |esp| up to which the predicates are evaluated on exact rationals (beyond: 60-digit logarithms)
+ULOG = Fr(1, 2 ** 53)      # hypotheses of C17_printed_radius_ge_1ulp: log10 on [1/2, 1) within 2^-53 absolute (two ulps of a result in
+UPOW = Fr(1, 2 ** 52)      # [1/4, 1/2)), pow (10, .) within 2^-52 relative (one ulp at worst), at the points used
+LN10_UP = Fr(2302585093, 10 ** 9)
+
+def dbits(x): return "%016x" % struct.unpack("<Q", struct.pack("<d", x))[0]
+def bits_fr(h):
+    """IEEE bits (hex) -> exact Fraction (finite values)"""
+    u = int(h, 16); sgn = -1 if u >> 63 else 1; e = (u >> 52) & 0x7ff; m = u & ((1 << 52) - 1)
+    if e == 0: return sgn * Fr(m, 1 << 1074)
+    return sgn * Fr((m | (1 << 52)) << max(e - 1075, 0), 1 << max(1075 - e, 0))
+def fr_pow(b, e): return Fr(b ** e) if e >= 0 else Fr(1, b ** (-e))
+def mant_bits(num):
+    """53-bit integer -> hex bits of the double num / 2^53 (in [1/2, 1))"""
+    assert (1 << 52) <= num < (1 << 53)
+    return "%016x" % ((1022 << 52) | (num - (1 << 52)))
+
+def gen_dpes(rng, count):
+    """(mantissa bits, esp, class) aimed at the case splits of get_dl / the proofs"""
+    out = []
+    def add(num, esp, cls, neg=False):
+        h = mant_bits(num)
+        if neg: h = "%016x" % (int(h, 16) | (1 << 63))
+        out.append((h, esp, cls))
+    def rmant():
+        t = rng.random()
+        if t < 0.06: return 1 << 52
+        if t < 0.12: return (1 << 53) - 1 - rng.randint(0, 3)
+        if t < 0.25: return max(1 << 52, min((1 << 53) - 1, (rng.randint(5 * 10 ** 5, 10 ** 6 - 1) << 53) // 10 ** 6))     # short decimal mantissas
+        return rng.randint(1 << 52, (1 << 53) - 1)
+    LMAX = 2 ** 63 - 1
+    fixed = [(1 << 52, 1, "one"), (1 << 52, 0, "half"), ((1 << 53) - 1, 0, "below-one"), (1 << 52, LMAX, "long-max"), (1 << 52, -LMAX - 1, "long-min"),
+             ((1 << 53) - 1, LMAX, "long-max"), (0x1e9c3f9a1a6f04 , -993, "coq-witness-1e13"), (5 << 50, 4, "ten"), (0x1a66ab7e0bd0ec, 79, "coq-witness-gnuplot")]
+    for num, e, cls in fixed: add(num, e, cls)
+    out.append(("0" * 16, 0, "zero"))
+    # exact powers of ten and their neighbours: 10^k = m * 2^e
+    for k in list(range(-30, 31)) + [rng.randint(-320, 320) for _ in range(60)] + [rng.choice([-1, 1]) * rng.randint(900, 40000) for _ in range(30)]:
+        x = fr_pow(10, k); e = 0
+        e = x.numerator.bit_length() - x.denominator.bit_length()
+        while fr_pow(2, e) <= x: e += 1
+        while fr_pow(2, e - 1) > x: e -= 1
+        num = int(x / fr_pow(2, e) * (1 << 53))          # truncated 53-bit mantissa of 10^k
+        for j in (rng.sample(range(-6, 7), 2) + [rng.choice([0, -1, 1])]):
+            n2 = num + j; e2 = e
+            if n2 < (1 << 52): n2 = (1 << 53) - 1; e2 = e - 1
+            if n2 >= (1 << 53): n2 = 1 << 52; e2 = e + 1
+            add(n2, e2, "near-power-of-ten", neg=rng.random() < 0.1)
+    while len(out) < count:
+        t = rng.random()
+        if t < 0.30: e = rng.randint(-60, 60); cls = "exp-small"
+        elif t < 0.55: e = rng.randint(-1074, 1023); cls = "exp-double-range"
+        elif t < 0.75: e = rng.choice([-1, 1]) * rng.randint(1024, 10 ** 5); cls = "exp-beyond-double"
+        elif t < 0.85: e = rng.choice([-1, 1]) * rng.randint(10 ** 5, EXACT_ESP); cls = "exp-1e5"
+        elif t < 0.93: e = rng.choice([-1, 1]) * rng.randint(10 ** 6, 2 ** 53); cls = "exp-huge(<2^53)"
+        else: e = rng.choice([-1, 1]) * rng.randint(2 ** 53, LMAX); cls = "exp-huge(>=2^53)"
+        add(rmant(), e, cls, neg=rng.random() < 0.12)
+    return out[:count]
+
+def gen_mpfs(rng, count):
+    """(kind M|G, mantissa integer, exp2, prec, class)"""
+    out = [("M", 0, 0, 64, "zero"), ("G", 0, 0, 64, "zero"), ("M", 1, 0, 64, "one"), ("G", 1, 0, 64, "one"), ("G", 10 ** 22, 0, 128, "power-of-ten"),
+           ("G", 623399332000000040000000, 0, 128, "known-finding"), ("M", (1 << 200) - 1, -300, 256, "all-ones"), ("G", (1 << 64) - 1, -64, 64, "all-ones")]
+    while len(out) < count:
+        prec = rng.choice([53, 64, 64, 128, 192, 256, 1024])
+        t = rng.random()
+        nb = rng.randint(1, prec)
+        if t < 0.2: m = (1 << nb) - 1 - rng.randint(0, 3); cls = "all-ones"          # truncation and rounding to 53 bits differ
+        elif t < 0.35: m = (1 << (nb - 1)) + rng.randint(0, 3); cls = "power-of-two+"
+        elif t < 0.5: m = rng.randint(1, 10 ** rng.randint(1, 25)); cls = "decimal"
+        else: m = rng.getrandbits(nb) | 1; cls = "random"
+        m = max(m, 1)
+        e2 = rng.choice([0, 0, -nb, rng.randint(-300, 300), rng.randint(-5000, 5000), 64 * rng.randint(-40, 40) - rng.choice([0, 1, 63])])
+        if rng.random() < 0.25: m = -m
+        out.append((rng.choice(["M", "G", "G"]), m, e2, prec, cls))
+    return out[:count]
+
+def text_value(tok):
+    """' 0.67262326287591x-043' -> (signed units N, l) : value = N * 10^(l-14)"""
+    m = re.match(r"^([ -])(\d+)\.(\d{14})[xe]([+-]\d{3,})$", tok)
+    if not m: return None
+    n = int(m.group(2) + m.group(3))
+    return (-n if m.group(1) == "-" else n), int(m.group(4))
+
+def dlog10(x, ctxd):
+    """log10 of a positive Fraction, 60 digits"""
+    return ctxd.log10(decimal.Decimal(x.numerator)) - ctxd.log10(decimal.Decimal(x.denominator))
+
+def rad_tie(ctx, rad, env, stats, only=None):
+    """harness/c17_rad.c against the extracted DPE model.  Returns a coverage dict."""
+    rng = ctx.rng
+    dctx = decimal.Context(prec=60)
+    D = decimal.Decimal
+    if only is not None:
+        dp = [tuple(x) for x in only.get("dpes", [])]; mp = [tuple(x) for x in only.get("mpfs", [])]
+    else:
+        dp = gen_dpes(rng, ctx.pick(1000, 6000)); mp = gen_mpfs(rng, ctx.pick(500, 3000))
+    hin = ["D %s %d" % (h, e) for (h, e, _) in dp] + ["%s %d %d %d" % (k, m, e2, pr) for (k, m, e2, pr, _) in mp]
+    rc, out, err = vf.sh([rad], input="\n".join(hin) + "\n", timeout=600, env=env)
+    if rc != 0:
+        m = re.search(r"(SUMMARY: .*|runtime error: .*)", err)
+        ctx.violation("crash:dpe-printing:%s" % (m.group(1)[:90] if m else "rc=%s" % rc), "the DPE printing path ends in a crash / sanitizer report on generated input",
+                      {"kind": "dpe", "dpes": dp[:50], "mpfs": mp[:50], "stderr": err[-1500:]})
+        return {"dpe_cases": 0}
+    hout = out.split("\n")[:len(hin)]
+    if len(hout) != len(hin): raise vf.InfraError("c17_rad returned %d lines for %d" % (len(hout), len(hin)))
+    # model queries: DL for the D lines; MPFRDPE / GNU on the EXPORTED limbs for the M / G lines
+    def exact_of(tok):
+        h, e = tok.split(":"); m = int(h, 16); e = int(e)
+        return Fr(m * (1 << e)) if e >= 0 else Fr(m, 1 << (-e))
+    q = ["DL\t%s\t%d" % (h, e) for (h, e, _) in dp]
+    mvals = []
+    for (k, m, e2, pr, _), ln in zip(mp, hout[len(dp):]):
+        f = ln.split("\t"); v = exact_of(f[-1]); mvals.append(v)
+        q.append(("MPFRDPE\t%s" if k == "M" else "GNU\t%s") % qs(v))
+    ans = ctx.run_model_lines("outfmt", q)
+    cls_hist = collections.Counter(c for (_, _, c) in dp); cls_hist.update("mpf:" + c for (*_, c) in mp)
+    cov = {"dpe_cases": len(dp), "mpf_cases": len(mp), "input_classes": dict(cls_hist)}
+    worst = {"log10_err_ulps": 0.0, "pow_err_ulps": 0.0, "radius_deficit": 0.0, "bound_margin_min": None}
+    agree = 0; judged = collections.Counter()
+    def rp(i): return {"kind": "dpe", "dpes": [list(dp[i])], "mpfs": []}
+    for i, ((h, esp, cls), hl, ml) in enumerate(zip(dp, hout, ans)):
+        hf = hl.split("\t"); mf = ml.split("\t")
+        if hf[0] != "D" or len(hf) != 8 or len(mf) != 7:
+            raise vf.InfraError("c17_rad / outfmt line format: %r / %r" % (hl[:200], ml[:200]))
+        _, hd, hlx, hlg, hfr, hpw, htx, htu = hf
+        md, mlx, mlg, mfr, mtx, mtu, munits = mf
+        m = bits_fr(h)
+        same = (hd == md and hlx == mlx and htx == mtx and htu == mtu)
+        nz = lambda b: "0" * 16 if b == "8" + "0" * 15 else b          # modf delivers -0.0 for a negative integer: the same number
+        libm_same = (m == 0) or (hlg == mlg and nz(hfr) == nz(mfr) and hpw[1:] == md[1:])
+        # ---- the property's predicates on what the REAL code printed (exact)
+        bad = None
+        tv = text_value(htx); tu = text_value(htu)
+        if tv is None or tu is None or tv != tu:
+            ctx.violation("layout:dpe:number", "rdpe_out_str / rdpe_out_str_u wrote %r / %r for the DPE %s:%d: not the layout % 16.14f[xe]%%+04li" % (htx, htu, h, esp), rp(i))
+            continue
+        N, l = tv
+        if m != 0:
+            sign_ok = (N == 0) or ((m > 0) == (N > 0))
+            if abs(esp) <= EXACT_ESP:
+                stored = abs(m) * fr_pow(2, esp); printed = abs(N) * fr_pow(10, l - 14)
+                mag_rel = (printed - stored) / stored          # signed relative deviation of the printed magnitude
+                unit_ok = abs(printed - stored) <= fr_pow(10, l - 14)
+                judged["exact-rationals"] += 1
+            else:
+                la = dlog10(abs(m), dctx) + D(esp) * dctx.log10(D(2))
+                if N == 0: mag_rel = Fr(-1)
+                else:
+                    dlt = (dctx.log10(D(abs(N))) + D(l - 14) - la) * dctx.ln(D(10))
+                    mag_rel = Fr(dctx.exp(dlt) - 1) if abs(dlt) < 50 else Fr(10 ** 9 if dlt > 0 else -1)
+                unit_ok = None
+                judged["60-digit-logarithms"] += 1
+            rel = mag_rel
+            if not sign_ok:
+                ctx.violation("sign:dpe:printed-sign", "DPE %s:%d printed as %r" % (h, esp, htx), rp(i)); continue
+            deficit = -mag_rel
+            if True:
+                if abs(esp) <= 2000: worst["radius_deficit"] = max(worst["radius_deficit"], float(deficit))
+                if deficit > Fr(RADSLACK[0], RADSLACK[1]):
+                    e10 = abs(l)
+                    if deficit <= Fr(max(100, e10), 10 ** 14):
+                        ctx.violation("radius:rdpe_out_str-log10-pow-inexact", "rdpe_out_str prints %s for the DPE %s:%d: smaller than stored by %.3g relative (> 1e-13), within the error of rdpe_get_dl's log10/pow at this exponent"
+                                      % (htx.strip(), h, esp, float(deficit)), rp(i))
+                        stats["dpe:radius:deficit>1e-13(log10/pow)"] += 1
+                    else:
+                        ctx.violation("radius:rdpe_out_str:printed-smaller", "rdpe_out_str prints %s for the DPE %s:%d: smaller than stored by %.3g relative, beyond print rounding and beyond the log10/pow error" % (htx.strip(), h, esp, float(deficit)), rp(i))
+                else: stats["dpe:radius:ge-stored*(1-1e-13)"] += 1
+            if unit_ok is not None:
+                if not unit_ok:
+                    e10 = abs(l)
+                    if abs(rel) <= Fr(max(100, e10), 10 ** 14):
+                        ctx.violation("close:gnuplot:rdpe_out_str_u-last-digits-inexact", "rdpe_out_str_u prints %s for the DPE %s:%d: more than one unit of the last digit from the stored value (relative %.3g)" % (htu.strip(), h, esp, float(abs(rel))), rp(i))
+                        stats["dpe:unit:off(log10/pow)"] += 1
+                    else:
+                        ctx.violation("close:gnuplot:far-off", "rdpe_out_str_u prints %s for the DPE %s:%d: relative deviation %.3g" % (htu.strip(), h, esp, float(abs(rel))), rp(i))
+                else: stats["dpe:unit:within-one-unit"] += 1
+            # ---- libm against the reference, in units of 2^-53 relative
+            lg = bits_fr(hlg); fr_ = bits_fr(hfr); pw = bits_fr(hpw)
+            lref = dlog10(abs(m), dctx)
+            worst["log10_err_ulps"] = max(worst["log10_err_ulps"], float(abs(D(lg.numerator) / D(lg.denominator) - lref) * D(2) ** 53))
+            pref = dctx.power(D(10), D(fr_.numerator) / D(fr_.denominator))
+            worst["pow_err_ulps"] = max(worst["pow_err_ulps"], float(abs((D(pw.numerator) / D(pw.denominator) - pref) / pref) * D(2) ** 53))
+            # ---- the proved bound (C17_printed_radius_ge with ulog = upow = 2^-52): |esp| <= 2^53
+            if abs(esp) <= 2 ** 53:
+                Dq = (1 + Fr(1, 2 ** 53)) * ULOG + (abs(esp) + 1) * Fr(1, 2 ** 53)
+                bound = LN10_UP * Dq + UPOW + Fr(5, 10 ** 14)
+                margin = bound - deficit
+                if worst["bound_margin_min"] is None or margin < worst["bound_margin_min"]: worst["bound_margin_min"] = margin
+                if deficit > bound:
+                    bad = "the proved bound printed >= stored * (1 - %.3g) fails (deficit %.3g)" % (float(bound), float(deficit))
+        if same and libm_same and not bad:
+            agree += 1
+        else:
+            what = bad or ("model (d, l, texts) = (%s, %s, %r, %r), code (%s, %s, %r, %r)" % (md, mlx, mtx, mtu, hd, hlx, htx, htu) if not same else
+                           "libm of harness and model driver differ: log10 %s / %s, fraction %s / %s, pow %s / %s" % (hlg, mlg, hfr, mfr, hpw, md))
+            ctx.violation("correspondence:rdpe_get_dl", "DPE %s:%d (%s): %s" % (h, esp, cls, what), rp(i), no_input=True)
+    magree = 0
+    for j, ((k, mm, e2, pr, cls), hl, ml, v) in enumerate(zip(mp, hout[len(dp):], ans[len(dp):], mvals)):
+        hf = hl.split("\t")
+        rpo = {"kind": "dpe", "dpes": [], "mpfs": [list(mp[j])]}
+        if k == "M":
+            got = "%s %s" % (hf[1], hf[2])
+            mfr_ = bits_fr(hf[1]); e = int(hf[2])
+            # predicate: the DPE is the stored value truncated to 53 bits: |v| (1 - 2^-52) < |dpe| <= |v|, same sign
+            dv = mfr_ * fr_pow(2, e) if abs(e) < 10 ** 6 else None
+            if dv is not None and not (abs(dv) <= abs(v) and abs(dv) * (1 << 52) >= abs(v) * ((1 << 52) - 1) and (dv < 0) == (v < 0)):
+                ctx.violation("mpf_get_rdpe:not-a-53-bit-truncation", "mpf_get_rdpe of %s gives %s" % (sf(v), got), rpo)
+            elif got != ml:
+                ctx.violation("correspondence:mpf_get_rdpe", "mpf %s*2^%d@%d (%s): model %s, code %s" % (mm, e2, pr, cls, ml, got), rpo, no_input=True)
+            else: magree += 1
+        else:
+            tvv = text_value(hf[1])
+            if tvv is None:
+                ctx.violation("layout:dpe:number", "gnuplot rendering %r of an mpf" % hf[1], rpo); continue
+            N, l = tvv
+            printed = N * fr_pow(10, l - 14)
+            if abs(printed - v) > fr_pow(10, l - 14):
+                relv = abs(printed - v) / abs(v) if v != 0 else Fr(1)
+                if relv <= Fr(max(100, abs(l)), 10 ** 14):
+                    ctx.violation("close:gnuplot:rdpe_out_str_u-last-digits-inexact", "gnuplot rendering of the mpf %s is %s: more than one unit of the last digit off (relative %.3g)" % (sf(v), hf[1].strip(), float(relv)), rpo)
+                    stats["dpe:gnuplot-mpf:off(log10/pow)"] += 1
+                else:
+                    ctx.violation("close:gnuplot:far-off", "gnuplot rendering of the mpf %s is %s" % (sf(v), hf[1].strip()), rpo)
+            else: stats["dpe:gnuplot-mpf:within-one-unit"] += 1
+            if hf[1] != ml:
+                ctx.violation("correspondence:gnuplot_component", "mpf %s*2^%d@%d (%s): model %r, code %r" % (mm, e2, pr, cls, ml, hf[1]), rpo, no_input=True)
+            else: magree += 1
+    if worst["log10_err_ulps"] > 1.0 or worst["pow_err_ulps"] > 2.0:
+        ctx.violation("correspondence:libm-outside-hypotheses", "this machine's log10 (on [1/2, 1)) / pow (10, .) are off by %.2f units of 2^-53 absolute / %.2f units of 2^-53 relative: beyond the hypotheses (2^-53 absolute, 2^-52 relative) the *_1ulp theorems are instantiated with"
+                      % (worst["log10_err_ulps"], worst["pow_err_ulps"]), {"kind": "dpe", "dpes": [], "mpfs": []}, no_input=True)
+    cov.update({"dpe_model_agrees_bit_for_bit": agree, "mpf_model_agrees": magree, "judged_by": dict(judged),
+                "libm_log10_worst_abs_error_units_of_2^-53(hypothesis<=1)": round(worst["log10_err_ulps"], 3), "libm_pow_worst_rel_error_units_of_2^-53(hypothesis<=2)": round(worst["pow_err_ulps"], 3),
+                "largest_radius_deficit_relative(|esp|<=2000)": worst["radius_deficit"],
+                "proved_bound_smallest_margin": float(worst["bound_margin_min"]) if worst["bound_margin_min"] is not None else None})
+    return cov
+
+
 # ----------------------------------------------------------------------------- the check
 def run(ctx):
     ctx.prove()
     ctx.proof_violation_if_broken()
     vfs = ctx.compile_harness(["vf_solve.c"], "vf_solve", mode="san")
     inj = ctx.compile_harness(["c17_out.c"], "c17_out", mode="san")
+    radh = ctx.compile_harness(["c17_rad.c"], "c17_rad", mode="san")
     env = ctx.san_env()
     rng = ctx.rng
+    if ctx.replay and json.load(open(ctx.replay)).get("kind") == "dpe":
+        st = collections.Counter()
+        dcov = rad_tie(ctx, radh, env, st, only=json.load(open(ctx.replay)))
+        return ctx.finish("proof", {"evaluations": dcov.get("dpe_cases", 0) + dcov.get("mpf_cases", 0), "distinct_nontrivial": 0, "rule": "replay of one DPE case",
+                                    "dpe_path": dcov, "histogram": dict(st), "samples": [], "trusted_base": ["replay"]}, [])
     cases = []        # Case objects
     # ---- (A) real solves: every format x goal x digits, a few search sets / -D flags
     if ctx.replay:
@@ -440,6 +692,15 @@ def run(ctx):
                 else:
                     nontrivial.add((c.name, c.fmt, idx, "rad", tok))
             round2.append(("RADGE\t%s\t%s\t%d\t%d" % (tok, qs(rad), RADSLACK[0], RADSLACK[1]), h))
+            # the rendering model: rdpe_outln_str (full) / rdpe_out_str_u (gnuplot-full) of the stored DPE, character for character
+            hb, he = o.drad_tok.split(":")
+            def h_txt(ans, c=c, tok=tok, idx=idx, dtok=o.drad_tok):
+                f = ans.split("\t")
+                want = (f[4] if c.fmt == "f" else f[5]).strip() if len(f) == 7 else ans
+                stats["render:radius:" + ("agrees" if want == tok else "DIFFERS")] += 1
+                if want != tok:
+                    ctx.violation("correspondence:rdpe_out_str:%s" % FMTNAME[c.fmt], "radius %s of root %d printed as %r, the model renders %r (%s)" % (dtok, idx, tok, want, c.name), replay_of(c, {"root": idx}), no_input=True)
+            round2.append(("DL\t%s\t%s" % (hb, he), h_txt))
             return
         # a component through mps_outfloat
         evaluations += 1
@@ -490,6 +751,11 @@ def run(ctx):
             comp["branch"] = "gnuplot"
             if not re.match(r"^-?\d{1,2}\.\d{14}e[+-]\d{3,}$", tok):
                 ctx.violation("correspondence:gnuplot:number-layout", "gnuplot number %r is not of the form %% 16.14fe%%+04ld (%s)" % (tok, c.name), replay_of(c), no_input=True)
+            def h_gnu(ans, c=c, tok=tok, idx=idx, x=x):
+                stats["render:gnuplot-component:" + ("agrees" if ans.strip() == tok else "DIFFERS")] += 1
+                if ans.strip() != tok:
+                    ctx.violation("correspondence:gnuplot_component:%s" % FMTNAME[c.fmt], "component %s of root %d printed as %r, the model (mpf_get_rdpe, rdpe_out_str_u) renders %r (%s)" % (sf(x), idx, tok, ans.strip(), c.name), replay_of(c, {"root": idx}), no_input=True)
+            round2.append(("GNU\t%s" % qs(x), h_gnu))
         else:
             comp["branch"] = "full"
             if x != 0:
@@ -546,6 +812,14 @@ def run(ctx):
                     samples.append({"case": c.name, "kind": c.kind, "format": fname, "root": comp["idx"], "field": comp["kd"], "printed": comp["tok"][:50],
                                     "stored": "%.17g" % float(comp["x"]) if abs(comp["x"]) < 10 ** 300 else "huge", "branch": br, "sig_digits": comp["sig"], "requested": c.digits})
         round2.append(("CLOSE\t%s\t%s" % (tok, qs(x)), h_close))
+        if comp["branch"].startswith("zero-branch") or (comp["branch"] == "plan-boundary" and tok.startswith("0.e")):
+            def h_zexp(ans, comp=comp):
+                c = comp["c"]
+                stats["render:0.e<l>:" + ("agrees" if ans == comp["tok"] else "DIFFERS")] += 1
+                if ans != comp["tok"]:
+                    ctx.violation("correspondence:zero_exp_code:%s" % FMTNAME[c.fmt], "component %s printed as %r, the model (rdpe_get_dl of |x|, l++ when d >= 1) renders %r (%s root %d)" % (sf(comp["x"]), comp["tok"], ans, c.name, comp["idx"]),
+                                  replay_of(c, {"root": comp["idx"]}), no_input=True)
+            round2.append(("ZEXP\t%s" % qs(x), h_zexp))
         if plans and x != 0:
             e = dexp(x)
             cands = []
@@ -587,18 +861,22 @@ def run(ctx):
             ctx.violation("correspondence:outfloat:%s" % FMTNAME[c.fmt], "printed %s for stored %.17g: not what the model (plan %s) renders, yet within one unit (%s root %d)"
                           % (comp["tok"][:60], float(x) if abs(x) < 10 ** 300 else 0.0, comp["cands"], c.name, comp["idx"]), replay_of(c, {"root": comp["idx"]}), no_input=True)
     hist_branch = collections.Counter(comp["branch"] for comp in comps)
+    # ---- the DPE printing path on its own
+    dpe_cov = rad_tie(ctx, radh, env, stats) if not ctx.replay else {}
+    ctx.log("DPE path: %s" % {k: v for k, v in dpe_cov.items() if k != "input_classes"})
+    evaluations += dpe_cov.get("dpe_cases", 0) + dpe_cov.get("mpf_cases", 0)
     cov = {"evaluations": evaluations, "distinct_nontrivial": len(nontrivial),
            "rule": "one evaluation = one printed context or one printed numeric field judged by the extracted predicate; distinct+non-trivial = distinct (case, format, root, field, printed string) whose predicate was evaluated to true by the extracted model (count-goal contexts by their three numbers)",
            "printed_contexts": len(cases), "contexts_by_kind": dict(collections.Counter(c.kind for c in cases)),
            "contexts_by_format_goal_digits": dict(collections.Counter("%s/%s/%d" % (c.fmt, c.goal, c.digits) for c in cases if c.kind == "solve")),
            "components": len(comps), "components_by_branch": dict(hist_branch), "model_queries": len(queries) + len(round2),
-           "rendering_model_checked": corr_checked, "rendering_model_disagreements": corr_bad,
+           "rendering_model_checked": corr_checked, "rendering_model_disagreements": corr_bad, "dpe_path": dpe_cov,
            "margin_digits": MARGIN, "histogram": dict(stats), "samples": samples,
            "input_class_histogram": dict(collections.Counter(c.desc for c in cases)),
            "trusted_base": ["Coq 8.16.1 kernel; axioms as printed by Print Assumptions (OutProps uses only Q/Z: none expected)",
                             "extraction: ExtrOcamlBasic, ExtrOcamlNativeString; ocaml/outfmt_driver.ml (zarith only for decimal <-> bits and one cross-multiplied equality)",
                             "harness/vf_solve.c and harness/c17_out.c exact export + lib/solve.py parser; the Python tokeniser of the six layouts (checks/C17.py)",
-                            "modelled, not verified: libm's log/log10/pow (the logarithm enters the model as a bracketed rational), GMP's mpf_out_str (round_sig is its stated specification, compared with the code on every component), printf's %f rounding",
+                            "modelled, not verified: libm (log10 / pow (10, .) are the two function parameters of the DPE model, instantiated by ocaml/outfmt_driver.ml with this machine's libm and measured per run against a 60-digit reference; the logarithm of the digit count of compact/bare/verbose still enters as a bracketed rational), binary64 as round-to-nearest-even with unbounded exponent (rn53), GMP's mpf_out_str (round_sig is its stated specification, compared with the code on every component) and mpf_get_d (truncation), printf's %f / %li as correctly rounded decimal conversion", "harness/c17_rad.c (real rdpe_get_dl / rdpe_out_str / rdpe_out_str_u / mpf_get_rdpe, texts through a memory stream); predicates of the DPE path on Python integers, 60-digit decimal logarithms when |esp| > %d" % EXACT_ESP,
                             "states of harness/c17_out.c are written into the context by hand (values, radii, flags, order): they exercise mps_output, not the solver"]}
     return ctx.finish("proof", cov, ["solver errors/timeouts are left to C03", "the CLI's stdout is mps_output on stdout: the memory stream of the harness is the same call",
                                      "a radius of 0 or a non-finite radius makes mps_outfloat convert an infinite double to long: those components are judged by the predicate only"])
